@@ -67,6 +67,8 @@ def judge (line impl : String) : String :=
   | some (c, big) =>
     if C08.hasEmptyDisj c.chk || c.ctx.any (fun e => C08.hasEmptyDisj e.2) then "skip" else
     let v := (words impl).headD "?"
+    if v == "hang" then "bad nontermination impl=hang" else
+    if v.startsWith "crash:" then s!"bad crash impl={v}" else
     if v != "accept" && v != "reject" then s!"bad no-verdict impl={v}" else
     if field impl "rerun=" != some "same" then "bad nondeterministic" else
     match (field impl "steps=").bind String.toNat? with
@@ -89,6 +91,10 @@ def gen (seed n : Nat) (tier : String) (emit : String → IO Unit) : IO Unit := 
   let mut r := Rng.mk' (seed + 77)
   for _ in List.range n do
     let (l, r') := genCase "c09" r
+    r := r'
+    emit l
+  for _ in List.range (n / 5) do
+    let (l, r') := genCycDisj "c09" r
     r := r'
     emit l
 
